@@ -267,7 +267,14 @@ func c18(e *Env) {
 	nTab := 0
 	var walk func(t *facts.Table)
 	walk = func(t *facts.Table) {
-		if types.Identical(t.KeyT, nf.tagType) {
+		if t.Struct != nil && t.Struct.NumFields() >= 2 && allStringFields(t.Struct) {
+			// a row with one string field per language: no language can be missing or doubled by construction (what
+			// each field holds is the value-name / title rules' business)
+			nTab++
+			c.Ok("language-keys", t.Name, e.P.Pos(t.Pos), "one field per language")
+			c.Ok("language-keys", t.Name+" {English,Japanese}", e.P.Pos(t.Pos), "both present (fields of a struct)")
+		}
+		if t.Struct == nil && types.Identical(t.KeyT, nf.tagType) {
 			nTab++
 			d := t.DuplicateKeys()
 			c.Check(len(d) == 0, "language-keys", t.Name, e.P.Pos(t.Pos), fmt.Sprintf("%d distinct language keys", len(t.Entries)), "duplicate language key(s) "+strings.Join(d, ", ")+": the later entry silently wins")
@@ -291,7 +298,7 @@ func c18(e *Env) {
 	for _, t := range tabs {
 		walk(t)
 	}
-	c.Floor("language-keys", 2*100)
+	c.Floor("language-keys", 2*50) // tables may be shared between metrics (Modified X reads X's table)
 	e.tableImmutability("table-immutability", "v3/report/names", "v3/metric")
 	e.tableModelProblems(func(t *facts.Table) bool {
 		return tableInPkgs(t, "v3/report/names") || (t.IsData() && tableInPkgs(t, "v3/metric"))
@@ -303,3 +310,13 @@ func c18(e *Env) {
 }
 
 func quote(s string) string { return fmt.Sprintf("%q", s) }
+
+func allStringFields(st *types.Struct) bool {
+	for i := 0; i < st.NumFields(); i++ {
+		b, ok := st.Field(i).Type().Underlying().(*types.Basic)
+		if !ok || b.Kind() != types.String {
+			return false
+		}
+	}
+	return true
+}
